@@ -54,7 +54,8 @@ def validate(ck, traces):
             t2["id"] = tr["id"] + "-exc"
             st.append(t2)
             break
-    verdicts, stats = tlc.validate_traces("Trace_LlcpLife.tla", "Trace_LlcpLife.cfg", "C09", traces + st, shards=16,
+    slim = [dict(id=t["id"], ev=t["ev"]) for t in traces + st]        # schedules (picks) stay on the Python side
+    verdicts, stats = tlc.validate_traces("Trace_LlcpLife.tla", "Trace_LlcpLife.cfg", "C09", slim, shards=16,
                                           timeout=900)
     for t in st:
         if verdicts[t["id"]][0] == "ACCEPT":
@@ -78,6 +79,7 @@ def validate(ck, traces):
             key = "trace:%s:%s:%s" % (act, ev.get("op"), ev.get("x"))
         ck.violation(key, "execution %s (%s, cause=%s) rejected by Trace_LlcpLife at event %d %s: %s" % (
             tr["id"], tr["progs"], tr["cause"], line, json.dumps(ev), json.dumps(why, default=str)[:500]),
-            replay=dict(kind="trace", progs=tr["progs"], cause=tr["cause"]))
+            replay=dict(kind="trace", progs=tr["progs"], cause=tr["cause"], cut=tr.get("cut"), picks=tr.get("picks"),
+                        events=tr["ev"][:line + 2]))
     ck.cover(traces_validated_against_impl=acc, trace_states=stats["states"])
     ck.sample(dict(trace=traces[0]["id"], progs=traces[0]["progs"], cause=traces[0]["cause"], events=traces[0]["ev"][:12]))
